@@ -634,7 +634,7 @@ fn replay_schedule(desc: &Value) -> CaseResult {
 pub fn def() -> PropDef {
     PropDef {
         id: "C20",
-        level_text: "Send/Sync decided by the compiler for all uses (a binary that only compiles if the bounds hold); generated evaluation histories on one expression compared structurally with a pristine clone after every step; results independent of what the thread handled before (fresh thread vs. after a history, incl. several >64-operand expressions and different operator tables); generated plans run concurrently from a barrier vs. sequentially, also in fresh child processes whose first library call is the racing parse (sampled schedules, not enumerated)",
+        level_text: "Send/Sync decided by the compiler for all uses (a binary that only compiles if the bounds hold); generated evaluation histories on one expression compared structurally with a pristine clone after every step; results independent of what the thread handled before (fresh thread vs. after a history, incl. several >64-operand expressions and different operator tables) and of which other instantiations (integer widths of the value type, same-named literal matchers) were used before in the process; generated plans run concurrently from a barrier vs. sequentially, also in fresh child processes whose first library call is the racing parse (sampled schedules, not enumerated)",
         assumptions: vec![
             "the schedule dimension is sampled: the harness does not own the scheduler (std::sync::Once inside lazy_static); this part is a stress sample",
             "structural equality = the derived PartialEq of FlatEx / DeepEx",
@@ -649,6 +649,11 @@ pub fn def() -> PropDef {
                 name: "history_independence",
                 rule: "tape -> 2-5 (table, expression) pairs incl. chains of 70/140/200 operands and (one in ten) flat chains of 2050-2199 operands evaluated through every entry point; each handled on a fresh thread (baseline) and then all on one thread in three passes (forward, backward, forward): text, variables, values, printed deep form, listings must be identical to the baseline and equal the reference tree; non-trivial = every history (distinct by content)",
                 kind: Kind::Tape { len: 3100, quick: 1_500, thorough: 60_000, f: history_independence },
+            },
+            SubCheck {
+                name: "cross_type_histories",
+                rule: "tape -> 4-15 steps, each on one of the eight instantiations Val<i8|i16|i32|i64, f32|f64> (an integer operation + - * / % ^ fact neg abs on boundary, small, power-of-two and random operands, through variables or folded literals) or on one of three literal matchers that share the identifier `NumMatcher` in different modules (plain decimals, with exponent, integers only); every result is compared with an oracle that does not depend on the process history (i128 arithmetic with the range check of the width; the tokenisation the matcher's own pattern implies); 16 workers run such histories concurrently; non-trivial = >=2 integer widths in the history",
+                kind: Kind::Tape { len: 200, quick: 60_000, thorough: 1_000_000, f: super::c20x::cross_type_histories },
             },
             SubCheck {
                 name: "schedules",
